@@ -81,6 +81,23 @@ Fixpoint split_at {A} (n : nat) (s : list A) : option (list A * list A) :=
     end
   end.
 
+(* the same with a binary counter (a count read from a hostile stream may be 2^31: it must never
+   be turned into a unary number); None also for a negative count *)
+Fixpoint take_z {A} (s : list A) (n : Z) : option (list A * list A) :=
+  if n =? 0 then Some ([], s) else
+  match s with
+  | [] => None
+  | b :: r => match take_z r (n - 1) with Some (a, t) => Some (b :: a, t) | None => None end
+  end.
+
+(* fseek forward by n >= 0: at or beyond the end every later read fails alike *)
+Fixpoint drop_z {A} (s : list A) (n : Z) : list A :=
+  if n <=? 0 then s else
+  match s with
+  | [] => []
+  | _ :: r => drop_z r (n - 1)
+  end.
+
 Fixpoint find_first {A} (p : A -> bool) (l : list A) : option A :=
   match l with
   | [] => None
